@@ -335,7 +335,7 @@ def fbg_rule(chk, db):
 META_EXTRA = 'FB (library-local constant-evaluation helpers of exactly specified functions, evaluated over a finite floating-point class domain against the closed form); FBG (the vendored gcem implementation that constant evaluation uses where the run-time path is a builtin, evaluated from its own source over the same domain widened by tiny, huge and non-finite classes); SHIFT (shift counts below the promoted width of the left operand, symbolic type width).'
 META = (META[0] + " " + META_EXTRA, META[1])
 META = (META[0] + ' RAWDIFF (integer midpoint combines its arguments only in the unsigned type).', META[1])
-META = (META[0] + ' NEGMIN (no negation of a possible numeric_limits::min(): not a constant expression); NZB (classification builtins that only promise a non-zero result are used in boolean context only, because the constant folder and the run-time expansion return different non-zero values).', META[1])
+META = (META[0] + ' NEGMIN (no negation of a possible numeric_limits::min(): not a constant expression); NZB (classification builtins that only promise a non-zero result are used in boolean context only, because the constant folder and the run-time expansion return different non-zero values); ALIASMODE (a pointer-order test between two pointer parameters - the overlap question - is asked in both evaluation modes or in neither).', META[1])
 
 
 def run(chk, tier):
@@ -469,6 +469,7 @@ def run(chk, tier):
     _AR.negmin_area(chk, D.load("checks"), [""])      # NEGMIN: `-min` is not a constant expression although the run-time call wraps
     _AR.positive_controls(chk, D, ("NEGMIN",))
     nzb_rule(chk, db)
+    aliasmode_rule(chk, db)
     from ..rules import shift as _SH
     _SH.check(chk, db, ["_bit/", "_bitset/"], floor=20)      # SHIFT: shift counts stay below the promoted operand width
     chk.assumptions += [
@@ -560,4 +561,67 @@ def nzb_rule(chk, db):
                               % (astx.loc(f, x), astx.show(x, 40), astx.show(parents.get(id(cur)) or cur, 60)), {"where": astx.loc(f)})
     if n < 2:
         chk.analysis_broken("NZB: only %d classification builtin calls found (floor 2)" % n)
+    return n
+
+
+# ---- ALIASMODE: a belief about overlapping arguments is held in both evaluation modes or in neither ---------------------------
+def aliasmode_rule(chk, db):
+    """A comparison of the *addresses* held by two pointer parameters (`source < dest`) is how code asks whether its ranges
+    overlap. When that question is asked on one side of a mode switch only (inside `if (not is_constant_evaluated())`, or in
+    the constant arm alone) the two evaluations handle overlapping arguments differently: the side that asks copies in the
+    safe direction, the other does not. Every function with a mode switch is an instance; the sets of pointer-order tests of
+    its run-time-only, constant-only and common regions are compared."""
+    n = 0
+    for f in db.funcs:
+        if f.get("body") is None or not has_ice(f):
+            continue
+        ptr_params = set(p["n"] for p in f["params"] if "*" in p.get("ty", ""))
+        n += 1
+        construct = astx.sig(f)
+        chk.instance("ALIASMODE")
+        tests = {"rt": [], "ce": [], "both": []}
+
+        def order_tests(e, mode):
+            for x in astx.walk_expr(e, into_lambdas=True):
+                if x.get("k") == "bin" and x["op"] in ("<", ">", "<=", ">="):
+                    a, b = astx.strip_casts(x["l"]), astx.strip_casts(x["r"])
+                    if a is not None and b is not None and a.get("k") == "ref" and b.get("k") == "ref" and \
+                            a.get("n") in ptr_params and b.get("n") in ptr_params and a["n"] != b["n"]:
+                        tests[mode].append(x)
+
+        def walk(s, mode):
+            if s is None:
+                return
+            ice = ice_of(s)
+            if ice:
+                walk(s.get("then"), "ce" if ice > 0 else "rt")
+                walk(s.get("else"), "rt" if ice > 0 else "ce")
+                return
+            # `if (not ice() and ...)` / `if (ice() or ...)`: a conjunct that is the mode switch itself
+            if s.get("k") == "if" and s.get("c") is not None:
+                c = astx.strip_casts(s["c"])
+                if c is not None and c.get("k") == "bin" and c["op"] == "&&":
+                    for side, other in ((c["l"], c["r"]), (c["r"], c["l"])):
+                        i2 = ice_of({"k": "if", "c": side})
+                        if i2:
+                            order_tests(other, "ce" if i2 > 0 else "rt")
+                            walk(s.get("then"), "ce" if i2 > 0 else "rt")
+                            walk(s.get("else"), mode)
+                            return
+            for e in astx.stmt_exprs(s):
+                order_tests(e, mode)
+            for c in astx.sub_stmts(s):
+                walk(c, mode)
+        walk(f["body"], "both")
+        one_sided = None
+        if tests["rt"] and not tests["ce"] and not tests["both"]:
+            one_sided = ("run-time", tests["rt"][0])
+        if tests["ce"] and not tests["rt"] and not tests["both"]:
+            one_sided = ("constant-evaluation", tests["ce"][0])
+        chk.obligation("ALIASMODE", construct, one_sided is None)
+        if one_sided:
+            chk.violation("ALIASMODE", construct, "overlap-handled-in-one-mode",
+                          "%s: `%s` asks whether the argument ranges overlap on the %s path only; the other evaluation copies "
+                          "without asking, so overlapping arguments give different results at compile time and at run time"
+                          % (astx.loc(f, one_sided[1]), astx.show(one_sided[1], 40), one_sided[0]), {"where": astx.loc(f)})
     return n
